@@ -129,6 +129,7 @@ type Phase struct {
 	Mode string        `json:"mode"` // health: ok|s500|s404|slow|stall|rst|fin|garbage ; listing: ok|s500|garbage|empty|stall|payload:<name> ; host: up|refuse|blackhole
 	Arg  int64         `json:"arg,omitempty"`
 	Data string        `json:"data,omitempty"` // raw payload for payload modes
+	B64  string        `json:"b64,omitempty"`  // arbitrary bytes (wins over Data)
 	// Models replaces the backend's model list from this phase on (listing phases)
 	Models []string `json:"models,omitempty"`
 }
@@ -153,6 +154,7 @@ type Chunk struct {
 	Delay time.Duration `json:"delay,omitempty"`
 	N     int           `json:"n,omitempty"`
 	Data  string        `json:"data,omitempty"`
+	B64   string        `json:"b64,omitempty"` // arbitrary bytes (wins over Data)
 }
 
 // Fault is injected at a protocol point of one exchange.
